@@ -92,9 +92,10 @@ Theorem C04_segmentation_reference : forall t8 cap segs f,
   run t8 cap segs f = spec_events cap (stream_of_segs segs) (is_eof f).
 Proof. exact run_spec. Qed.
 
-(** gaps of at most T8 between non-empty reads never cause a T8 drop *)
+(** gaps of at most T8 between consecutive Read returns never cause a T8 drop (a Read that
+    returns no byte re-arms the deadline like any other: exactly what readN's loop does) *)
 Theorem C04_small_gaps_no_drop : forall t8 cap segs,
-  Forall (fun seg => fst seg <= t8 /\ snd seg <> []) segs ->
+  Forall (fun seg => fst seg <= t8) segs ->
   has_t8_drop (snd (run_segs t8 cap rinit segs)) = false.
 Proof. exact small_gaps_quiet_init. Qed.
 
@@ -116,6 +117,14 @@ Theorem C04_idle : forall t8 cap pre g g' bs rest f,
   alive s = true -> started s = false ->
   run t8 cap (pre ++ (g, bs) :: rest) f = run t8 cap (pre ++ (g', bs) :: rest) f.
 Proof. exact idle_gap_irrelevant. Qed.
+(** A Read that returns no byte ((0, nil): in-memory / wrapped conns) while the link is idle does
+    not start a frame: the run continues exactly as if it had not happened, so an idle gap of any
+    length after it still never times out. *)
+Theorem C04_empty_read_idle : forall t8 cap pre g rest f,
+  let s := fst (run_segs t8 cap rinit pre) in
+  alive s = true -> started s = false ->
+  run t8 cap (pre ++ (g, []) :: rest) f = run t8 cap (pre ++ rest) f.
+Proof. exact empty_read_idle. Qed.
 Theorem C04_idle_wait : forall t8 s g,
   alive s = true -> started s = false -> wait t8 s g = (mkR true (ph s) (since s + g), []).
 Proof. exact idle_wait. Qed.
@@ -174,6 +183,12 @@ Example C04_segmentation_nonvacuous :
   has_t8_drop (run 5 frame_cap segsA FinSilent) = false /\
   has_t8_drop (run 5 frame_cap segsB FinSilent) = false /\
   run 5 frame_cap segsB FinSilent = [EvAlloc 10; EvFrame f1; EvAlloc 14; EvFrame f2; EvIdle].
+Proof. repeat split; vm_compute; reflexivity. Qed.
+Example C04_empty_read_nonvacuous :
+  run 5 frame_cap [(0, be32 10 ++ f1); (1, []); (2, []); (3600000, be32 14 ++ f2)] FinSilent =
+  [EvAlloc 10; EvFrame f1; EvAlloc 14; EvFrame f2; EvIdle] /\
+  run 5 frame_cap [(0, be32 10); (4, []); (4, []); (5, f1)] FinSilent = [EvAlloc 10; EvFrame f1; EvIdle] /\
+  run 5 frame_cap [(0, be32 10); (6, []); (1, f1)] FinSilent = [EvAlloc 10; EvDrop DT8].
 Proof. repeat split; vm_compute; reflexivity. Qed.
 Example C04_t8_nonvacuous :
   run 5 frame_cap [(0, be32 10 ++ f1); (100, [0; 0; 0]); (6, [14] ++ f2)] (FinEof 0) =
